@@ -322,6 +322,9 @@ func runC04(c *eng.Ctx) {
 	}
 	c.Floor(7)
 	_ = ir.FuncKey
+	c.Rule("R16.8", "K6")
+	ruleStreamConfigPlumbing(c, "MinIsr")
+	c.Floor(2)
 }
 
 // indexOfLoad returns the IndexAddr whose element v loads.
